@@ -69,7 +69,8 @@ def check(ctx):
             names = {f.name for f in fs}
             okc = rr.apply in fs or (isinstance(c.func, ast.Name) and c.func.id in ("transform_physical",)) or \
                 names & {"_coerce_progress", "_update_run_totals", "assert_is_instance", "assert_is_callable", "_coerce_retry", "get_mutable_plan", "prune_plan"} \
-                or (isinstance(c.func, ast.Attribute) and c.func.attr in ("observer", "gather", "copy"))
+                or (isinstance(c.func, ast.Attribute) and c.func.attr in ("observer", "gather", "_gather", "copy")) \
+                or names & {"get_stack_frame"}
             ctx.ob("C14.D1", f"{run.short}/before-test", bool(okc), loc(run, c),
                    "allowed before the dry_run test (validation, observer, stale check, transformations)" if okc else
                    "a user-reaching call other than the stale check / transformations runs before the dry_run test", norm(c)[:100])
